@@ -438,6 +438,21 @@ func (g *gen) vrf(n int, nz int) {
 		g.do("p2v " + hx.Hex(pi))
 		thr := g.thr[0]
 		g.do(fmt.Sprintf("vbv %d %s %s %s %d %d %d %d %d", thr, hx.Hex(pk), hx.Hex(pi), hx.Hex(m), 10, 0, 1, 8, 7))
+		// the qualification rule on both forms of the proof: full 80 bytes and as read back from the header
+		short := new(big.Int).SetBytes(pi).Bytes()
+		for _, st := range [][3]uint64{{10, 0, 1}, {10, 0, 10}, {g.thr[1] + 1, 2, 1000}} {
+			for _, thr := range g.thr {
+				g.do(fmt.Sprintf("qn %d %s %d %d %d", thr, hx.Hex(pi), st[0], st[1], st[2]))
+				g.do(fmt.Sprintf("qn %d %s %d %d %d", thr, hx.Hex(short), st[0], st[1], st[2]))
+			}
+			var qn uint64
+			hx.Guard(func() string {
+				setThreshold(g.thr[1])
+				_, qn = logical.VerifC16ValidateProve(pi, st[0], st[1], st[2])
+				return ""
+			})
+			g.do(fmt.Sprintf("vbv %d %s %s %s %d %d %d %d %d", g.thr[1], hx.Hex(pk), hx.Hex(short), hx.Hex(m), st[0], st[1], st[2], 50+qn, 50))
+		}
 	}
 	g.out.Kinds["(leading-zero proofs found)"] = len(zs)
 }
@@ -595,6 +610,24 @@ func (g *gen) qn(n int) {
 		}
 	}
 	g.do(fmt.Sprintf("qn %d %s 5 0 0", g.thr[0], hx.Hex(r.Bytes(80))))
+	// synthetic proofs with 1..3 leading zero bytes, in both forms (full / transported through big.Int)
+	for i := 0; i < n/4; i++ {
+		p := r.Bytes(80)
+		z := 1 + i%3
+		for j := 0; j < z; j++ {
+			p[j] = 0
+		}
+		if r.Chance(1, 2) {
+			p[z] = byte(1 + r.Intn(4))
+		}
+		short := new(big.Int).SetBytes(p).Bytes()
+		thr := g.thr[r.Intn(len(g.thr))]
+		t := uint64(r.Pick(1, 5, 6, 10, 100, 1000, 1<<30))
+		wm := uint64(r.Pick(0, 0, 1, 3))
+		h := thr + uint64(r.Intn(2))
+		g.do(fmt.Sprintf("qn %d %s %d %d %d", thr, hx.Hex(p), h, wm, t))
+		g.do(fmt.Sprintf("qn %d %s %d %d %d", thr, hx.Hex(short), h, wm, t))
+	}
 	for i := 0; i < n; i++ {
 		thr := g.thr[r.Intn(len(g.thr))]
 		t := r.U64() >> uint(r.Intn(64))
